@@ -18,9 +18,9 @@ def pcIds : Pc → List Id
   | .csGet k | .csSet k | .ccTest k | .ccRead k | .ccWrite k _ | .ccReset k | .cuAcq k | .cuWeakKeys k
   | .cuWeakChk k _ | .cuStrongKeys k | .cuStrongGet k _ _ | .cuStrongDel k _ _ _ | .cuWeakSet k _ _ _ | .cuRel k
   | .cuWeakPop k _ _ _ => kIds k
-  | .probe i | .acq i | .relook i | .relRel i _ | .weakGet i | .weakDel i _ | .weakDelDead i _ | .strongSet i _
+  | .probeL i | .probe i _ | .acq i | .relook i | .relRel i _ | .weakGet i | .weakDel i _ | .weakDelDead i _ | .strongSet i _
   | .relSet i _
-  | .select i | .put i _ | .finRel i _ | .finRelNF i | .insert i | .crSet i _ | .crSelect i _
+  | .select i | .put i _ | .finRel i _ | .finRelNF i | .insert i | .crSetL i _ | .crSet i _ _ | .crSelect i _
   | .nProbe i | .nAcq i | .nRelook i
   | .exAcq i | .exInStrong i | .exDelStrong i | .exInWeak i | .exDelWeak i => [i]
   | _ => []
@@ -30,7 +30,7 @@ def pcCrIds : Pc → List Id
   | .csGet k | .csSet k | .ccTest k | .ccRead k | .ccWrite k _ | .ccReset k | .cuAcq k | .cuWeakKeys k
   | .cuWeakChk k _ | .cuStrongKeys k | .cuStrongGet k _ _ | .cuStrongDel k _ _ _ | .cuWeakSet k _ _ _ | .cuRel k
   | .cuWeakPop k _ _ _ => kCr k
-  | .insert i | .crSet i _ | .crSelect i _ => [i]
+  | .insert i | .crSetL i _ | .crSet i _ _ | .crSelect i _ => [i]
   | _ => []
 
 /-- the id whose INSERT is still ahead in the current operation -/
@@ -209,6 +209,109 @@ theorem noea_step (s s' : State) (t : Tid) (h : NoEA s) (hs : step s t = some s'
       | (simp [pcEA] at h1; done)
   · rw [step_th_ne s s' t u hs hu]; exact h u
 
+/-! ## no thread runs `expire`: nothing is ever removed from the cache (`stale` stays empty) -/
+def pcEX : Pc → Bool
+  | .exAcq _ | .exInStrong _ | .exDelStrong _ | .exInWeak _ | .exDelWeak _ | .exRel | .exRelErr => true
+  | .csGet k | .csSet k | .ccTest k | .ccRead k | .ccWrite k _ | .ccReset k | .cuAcq k | .cuWeakKeys k
+  | .cuWeakChk k _ | .cuStrongKeys k | .cuStrongGet k _ _ | .cuStrongDel k _ _ _ | .cuWeakSet k _ _ _ | .cuRel k
+  | .cuWeakPop k _ _ _ =>
+    match k with
+    | .expire _ => true
+    | _ => false
+  | _ => false
+
+def isEX : Op → Bool
+  | .expire _ => true
+  | _ => false
+
+def thNoEX (th : Th) : Prop := pcEX th.pc = false ∧ ∀ op ∈ th.prog, isEX op = false
+def NoEX (s : State) : Prop := ∀ t, thNoEX (s.th t)
+
+theorem pcEX_entry (dc c : Bool) (op : Op) (h : isEX op = false) : pcEX (entry dc c op) = false := by
+  cases op <;> cases c <;> cases dc <;> simp_all [entry, pcEX, isEX]
+
+theorem goto_nex (s : State) (t : Tid) (pc : Pc) (h : thNoEX (s.th t)) (hp : pcEX pc = false) :
+    thNoEX ((goto s t pc).th t) := by
+  simp only [goto, setTh_self]; exact ⟨hp, h.2⟩
+
+theorem finish_nex (s : State) (t : Tid) (o : Out) (h : thNoEX (s.th t)) : thNoEX ((finish s t o).th t) := by
+  unfold finish
+  split
+  · simp [thNoEX, pcEX]
+  · rename_i op rest he
+    simp only [setTh_self, thNoEX]
+    have h2 := h.2
+    rw [he] at h2
+    exact ⟨pcEX_entry _ _ _ (h2 op (by simp)), fun op' ho => h2 op' (by simp [ho])⟩
+
+theorem releaseFinish_nex (s : State) (t : Tid) (o : Out) (h : thNoEX (s.th t)) :
+    thNoEX ((releaseFinish s t o).th t) := by
+  unfold releaseFinish; split
+  · exact finish_nex _ _ _ h
+  · exact finish_nex { s with lock := none } t o h
+
+theorem afterCC_nex (s : State) (t : Tid) (k : K) (h : thNoEX (s.th t)) (hk : pcEX (.ccTest k) = false) :
+    thNoEX ((afterCC s t k).th t) := by
+  cases k <;> simp only [afterCC] <;>
+    first | exact finish_nex _ _ _ h | exact goto_nex _ _ _ h rfl | simp [pcEX] at hk
+
+theorem afterCaches_nex (s : State) (t : Tid) (k : K) (h : thNoEX (s.th t)) (hk : pcEX (.ccTest k) = false) :
+    thNoEX ((afterCaches s t k).th t) := by
+  cases k <;> simp only [afterCaches] <;> (try split) <;>
+    first | exact goto_nex _ _ _ h rfl | simp [pcEX] at hk
+
+theorem pcEX_cuWeakNext (k : K) (ks : List Id) : pcEX (cuWeakNext k ks) = pcEX (.ccTest k) := by
+  cases ks <;> rfl
+theorem pcEX_cuStrongNext (k : K) (ks : List Id) : pcEX (cuStrongNext k ks) = pcEX (.ccTest k) := by
+  cases ks <;> rfl
+
+set_option linter.unnecessarySimpa false in
+theorem noex_step (s s' : State) (t : Tid) (h : NoEX s) (hs : step s t = some s') : NoEX s' := by
+  intro u
+  by_cases hu : u = t
+  · subst hu
+    have h : thNoEX (s.th u) := h u
+    have h1 := h.1
+    step_cases <;> simp only [hpc] at h1 <;>
+      first
+      | exact finish_nex _ _ _ h
+      | exact releaseFinish_nex _ _ _ h
+      | exact goto_nex _ _ _ h rfl
+      | exact goto_nex _ _ _ h (by simpa [pcEX] using h1)
+      | exact goto_nex _ _ _ h (by rw [pcEX_cuWeakNext]; simpa [pcEX] using h1)
+      | exact goto_nex _ _ _ h (by rw [pcEX_cuStrongNext]; simpa [pcEX] using h1)
+      | exact afterCC_nex _ _ _ h (by simpa [pcEX] using h1)
+      | exact afterCaches_nex _ _ _ h (by simpa [pcEX] using h1)
+      | (simp [pcEX] at h1; done)
+  · rw [step_th_ne s s' t u hs hu]; exact h u
+
+
+theorem stale_step (s s' : State) (t : Tid) (hn : NoEX s) (hs : step s t = some s') : s'.stale = s.stale := by
+  have h := (hn t).1
+  step_cases <;> simp only [hpc, pcEX] at h <;> simp_all
+
+theorem stale_run (s : State) (sched : List Tid) (hn : NoEX s) : (run s sched).stale = s.stale := by
+  induction sched generalizing s with
+  | nil => rfl
+  | cons t ts ih =>
+    unfold run
+    split
+    · rename_i s' hs
+      rw [ih s' (noex_step s s' t hn hs), stale_step s s' t hn hs]
+    · exact ih s hn
+
+theorem noex_init (dc caches : Bool) (strong weak : AMap) (db : List Id) (fresh freq frac cc off : Nat)
+    (pins : List Obj) (progs : Tid → List Op) (h : ∀ t, ∀ op ∈ progs t, isEX op = false) :
+    NoEX (mkInit dc caches strong weak db fresh freq frac cc off pins progs) := by
+  intro t
+  show thNoEX (startTh dc caches (progs t))
+  cases hp : progs t with
+  | nil => simp [startTh, thNoEX, pcEX]
+  | cons op rest =>
+    simp only [startTh, thNoEX]
+    have h' := h t; rw [hp] at h'
+    exact ⟨pcEX_entry _ _ _ (h' op (by simp)), fun op' ho => h' op' (by simp [ho])⟩
+
 theorem pcEAk_of_pcEA (pc : Pc) (h : pcEA pc = false) : pcEAk pc = false := by
   cases pc <;> simp_all [pcEA, pcEAk]
 
@@ -246,7 +349,7 @@ def actCreate : Pc → Option (Id × Obj)
   | .csGet k | .csSet k | .ccTest k | .ccRead k | .ccWrite k _ | .ccReset k | .cuAcq k | .cuWeakKeys k
   | .cuWeakChk k _ | .cuStrongKeys k | .cuStrongGet k _ _ | .cuStrongDel k _ _ _ | .cuWeakSet k _ _ _ | .cuRel k
   | .cuWeakPop k _ _ _ => kCreate k
-  | .crSet i o => some (i, o)
+  | .crSetL i o | .crSet i o _ => some (i, o)
   | _ => none
 
 /-- an id is present in the cache (either map, or in transit between them) -/
@@ -255,7 +358,7 @@ def Present (s : State) (i : Id) : Prop :=
 
 /-- ids the action at this pc may newly enter into the cache -/
 def pcWrites : Pc → List Id
-  | .put i _ | .crSet i _ => [i]
+  | .put i _ | .crSet i _ _ => [i]
   | _ => []
 
 structure CInv (s : State) : Prop where
@@ -433,14 +536,65 @@ theorem cinv_step (s s' : State) (t : Tid) (ha : AInv s) (hb : BInv s) (hf : Fre
 theorem gid_pcIds (pc : Pc) (i : Id) (h : gid pc = some i) : i ∈ pcIds pc := by
   cases pc <;> simp_all [gid, pcIds]
 
+/-- the generation of the dict a lock-free `cache[id] = obj` is about to write to -/
+def pcGen : Pc → Option Nat
+  | .crSet _ _ g => some g
+  | _ => none
+
+/-- without `expireAll` the attribute `self.cache` is never rebound: every such alias is of the current dict -/
+def GenInv (s : State) : Prop := ∀ t g, pcGen (s.th t).pc = some g → g = s.gen
+
+theorem pcGen_entry (dc c : Bool) (op : Op) : pcGen (entry dc c op) = none := by
+  cases op <;> cases c <;> cases dc <;> rfl
+theorem pcGen_finish (s : State) (t : Tid) (o : Out) : pcGen ((finish s t o).th t).pc = none := by
+  unfold finish; split
+  · simp only [setTh_self]; rfl
+  · simp only [setTh_self]; exact pcGen_entry _ _ _
+theorem pcGen_releaseFinish (s : State) (t : Tid) (o : Out) : pcGen ((releaseFinish s t o).th t).pc = none := by
+  unfold releaseFinish; split <;> exact pcGen_finish _ _ _
+theorem pcGen_afterCC (s : State) (t : Tid) (k : K) : pcGen ((afterCC s t k).th t).pc = none := by
+  cases k <;> simp only [afterCC, goto_pc_self, pcGen_finish] <;> rfl
+theorem pcGen_afterCaches (s : State) (t : Tid) (k : K) (g : Nat)
+    (h : pcGen ((afterCaches s t k).th t).pc = some g) : g = s.gen := by
+  cases k <;> simp only [afterCaches] at h <;> (try split at h) <;> simp_all [pcGen]
+theorem pcGen_cuWeakNext (k : K) (l : List Id) : pcGen (cuWeakNext k l) = none := by cases l <;> rfl
+theorem pcGen_cuStrongNext (k : K) (l : List Id) : pcGen (cuStrongNext k l) = none := by cases l <;> rfl
+
+theorem gen_step (s s' : State) (t : Tid) (hn : NoEA s) (hs : step s t = some s') : s'.gen = s.gen := by
+  have h := (hn t).1
+  step_cases <;> simp only [hpc, pcEA] at h <;> simp_all
+
+theorem geninv_step (s s' : State) (t : Tid) (hn : NoEA s) (hg : GenInv s) (hs : step s t = some s') : GenInv s' := by
+  have e := gen_step s s' t hn hs
+  intro u g hp
+  rw [e]
+  by_cases hu : u = t
+  · subst hu
+    step_cases <;>
+      (try simp only [goto_pc_self, pcGen_finish, pcGen_releaseFinish, pcGen_afterCC, pcGen_cuWeakNext,
+        pcGen_cuStrongNext] at hp) <;>
+      first
+      | (have h' := pcGen_afterCaches _ _ _ _ hp; simpa using h')
+      | (simp_all [pcGen]; done)
+  · rw [step_th_ne s s' t u hs hu] at hp; exact hg u g hp
+
+theorem geninv_init (dc caches : Bool) (strong weak : AMap) (db : List Id) (fresh freq frac cc off : Nat)
+    (pins : List Obj) (progs : Tid → List Op) :
+    GenInv (mkInit dc caches strong weak db fresh freq frac cc off pins progs) := by
+  intro t g h
+  have h' : pcGen (startTh dc caches (progs t)).pc = some g := h
+  cases hp : progs t with
+  | nil => rw [hp] at h'; simp [startTh, pcGen] at h'
+  | cons op rest => rw [hp] at h'; simp [startTh, pcGen_entry] at h'
+
 /-- freshness makes the lock-free steps harmless -/
-theorem crok_of_fresh (s : State) (t : Tid) (hf : Fresh s) (hn : NoEA s) (hc : CInv s) (hd : s.dc = true) :
-    CrOK s t := by
+theorem crok_of_fresh (s : State) (t : Tid) (hf : Fresh s) (hn : NoEA s) (hc : CInv s) (hd : s.dc = true)
+    (hgi : GenInv s) : CrOK s t := by
   constructor
-  · intro i o hp
+  · intro i o g hp
     obtain ⟨hnp, _⟩ := hc.act t i o (by rw [hp]; rfl)
     have hcr : i ∈ thCrIds (s.th t) := by simp [thCrIds, hp, pcCrIds]
-    refine ⟨?_, ?_, ?_, ?_, ?_, hd⟩
+    refine ⟨?_, ?_, ?_, ?_, ?_, hd, hgi t g (by rw [hp]; rfl)⟩
     · cases h : aget s.strong i with
       | none => rfl
       | some v => exact absurd (Or.inl (by simp [h])) hnp
@@ -458,7 +612,7 @@ theorem crok_of_fresh (s : State) (t : Tid) (hf : Fresh s) (hn : NoEA s) (hc : C
 
 /-- all layers along a schedule, for programs with fresh creates and no expireAll -/
 theorem inv_run_fresh (s : State) (sched : List Tid) (ha : AInv s) (hb : BInv s) (hfi : FInv s) (hm : MdInv s)
-    (hd : s.dc = true) (hf : Fresh s) (hn : NoEA s) (hc : CInv s) (he : EInv s) :
+    (hd : s.dc = true) (hgi : GenInv s) (hf : Fresh s) (hn : NoEA s) (hc : CInv s) (he : EInv s) :
     AInv (run s sched) ∧ BInv (run s sched) ∧ Fresh (run s sched) ∧ NoEA (run s sched) ∧ CInv (run s sched) ∧
       EInv (run s sched) := by
   induction sched generalizing s with
@@ -467,15 +621,15 @@ theorem inv_run_fresh (s : State) (sched : List Tid) (ha : AInv s) (hb : BInv s)
     unfold run
     split
     · rename_i s' hs
-      have hcr := crok_of_fresh s t hf hn hc hd
+      have hcr := crok_of_fresh s t hf hn hc hd hgi
       have hd' : s'.dc = true := by rw [dc_step s s' t hs]; exact hd
-      exact ih s' (ainv_step s s' t ha hs) (binv_step s s' t ha hb hfi hm hcr hs) (finv_step s s' t hfi hs) (mdinv_step s s' t hm hs) hd'
+      exact ih s' (ainv_step s s' t ha hs) (binv_step s s' t ha hb hfi hm hcr hs) (finv_step s s' t hfi hs) (mdinv_step s s' t hm hs) hd' (geninv_step s s' t hn hgi hs)
         (fresh_step s s' t hf hs) (noea_step s s' t hn hs) (cinv_step s s' t ha hb hf hc hs)
         (einv_step s s' t ha hb hcr he hs)
-    · exact ih s ha hb hfi hm hd hf hn hc he
+    · exact ih s ha hb hfi hm hd hgi hf hn hc he
 
 theorem reach_run_fresh (s : State) (sched : List Tid) (ha : AInv s) (hb : BInv s) (hfi : FInv s) (hm : MdInv s)
-    (hd : s.dc = true) (hf : Fresh s) (hn : NoEA s) (hc : CInv s) (i : Id) (o : Obj) (hr : Reach s i o) (hal : Held s o) :
+    (hd : s.dc = true) (hgi : GenInv s) (hf : Fresh s) (hn : NoEA s) (hc : CInv s) (i : Id) (o : Obj) (hr : Reach s i o) (hal : o ∈ s.refs ∨ o ∈ s.pins) :
     Reach (run s sched) i o := by
   induction sched generalizing s with
   | nil => exact hr
@@ -483,12 +637,13 @@ theorem reach_run_fresh (s : State) (sched : List Tid) (ha : AInv s) (hb : BInv 
     unfold run
     split
     · rename_i s' hs
-      have hcr := crok_of_fresh s t hf hn hc hd
+      have hcr := crok_of_fresh s t hf hn hc hd hgi
       have hd' : s'.dc = true := by rw [dc_step s s' t hs]; exact hd
-      exact ih s' (ainv_step s s' t ha hs) (binv_step s s' t ha hb hfi hm hcr hs) (finv_step s s' t hfi hs) (mdinv_step s s' t hm hs) hd'
+      exact ih s' (ainv_step s s' t ha hs) (binv_step s s' t ha hb hfi hm hcr hs) (finv_step s s' t hfi hs) (mdinv_step s s' t hm hs) hd' (geninv_step s s' t hn hgi hs)
         (fresh_step s s' t hf hs) (noea_step s s' t hn hs) (cinv_step s s' t ha hb hf hc hs)
-        (reach_step s s' t ha hb hcr hs i o hr hal) (held_step s s' t hs o hal)
-    · exact ih s ha hb hfi hm hd hf hn hc hr hal
+        (reach_step s s' t ha hb hcr hs i o hr (by rcases hal with h | h; exact Or.inl h; exact Or.inr (Or.inl h)))
+        (held_step s s' t hs o hal)
+    · exact ih s ha hb hfi hm hd hgi hf hn hc hr hal
 
 /-! ## initial states -/
 theorem startTh_ids (dc c : Bool) (p : List Op) :
